@@ -29,7 +29,7 @@ def handleJavaInfo (args : List String) : String :=
     let ftp := fileToPaths fs ord cfg keys
     let per := m.map fun kc =>
       let rel := keyPath cfg kc.1
-      s!"K{toHex kc.1}:{showBranch (branchOf nd ftp rel)}:p{toHex (partialStep nd ftp rel)}"
+      s!"K{toHex kc.1}:{showBranch (branchOf nd ftp rel (namesFile fs cfg.sourceDir rel))}:p{toHex (partialStepF fs cfg.sourceDir nd ftp rel)}"
     joinWith " " (s!"needed={bit nd}" :: per)
   | none => "bad-op"
 
